@@ -137,9 +137,7 @@ def depends(rep, repo):
     else does" rests on every op reading exactly the lines wired to its node's input pins (interface ops: the PI/PPI slot): the operand
     wiring rule of C01 is part of this check."""
     from checks import c01
-    from kvstatic import simops
-    smod, init = simops.simops_init(repo)
-    c01.check_wiring(rep, smod, init, simops.op_sites(init))
+    c01.wiring_rules(rep, repo)
     # ... and on the memory map: the location a PO/PPO is captured from must be the location of the line feeding it, and
     # distinct live lines must not share memory (C08 map rules), otherwise an overwrite is not seen downstream or leaks sideways
     from checks import c08
